@@ -70,8 +70,31 @@ def detect(sid, pids, tier="quick"):
         sh("git -C /repo worktree remove --force %s" % wt)
         save(sid, m)
 
+def table():
+    """Rewrite the seeded-change table in DESIGN.md from seeded/*/meta.json."""
+    rows = ["| change | what it breaks (first line of the author's note) | confirmed | caught by |", "|---|---|---|---|"]
+    for mp in sorted(glob.glob(os.path.join(V, "seeded", "*", "meta.json"))):
+        m = json.load(open(mp))
+        first = ""
+        for ln in (m.get("needs") or "").splitlines():
+            ln = ln.strip().lstrip("#").strip()
+            if ln: first = ln; break
+        first = first.replace("|", "/")[:110]
+        det = m.get("detection", {})
+        caught = sorted(k for k, v in det.items() if v.get("exit") == 1 and v.get("violations"))
+        missed = sorted(k for k, v in det.items() if not (v.get("exit") == 1 and v.get("violations")))
+        c = ", ".join(caught) if caught else "**missed**"
+        if missed and caught: c += " (not by " + ", ".join(missed) + ")"
+        rows.append("| %s | %s | %s | %s |" % (m["id"], first, "yes" if m.get("confirmed") else "NO", c))
+    p = os.path.join(V, "DESIGN.md"); s = open(p).read()
+    a, b = "<!-- SEEDED-TABLE-BEGIN -->", "<!-- SEEDED-TABLE-END -->"
+    i, j = s.index(a) + len(a), s.index(b)
+    s = s[:i] + "\n" + "\n".join(rows) + "\n" + s[j:]
+    open(p, "w").write(s); print("table:", len(rows) - 2, "rows")
+
 if __name__ == "__main__":
     a = sys.argv[1:]
+    if a[0] == "table": table(); sys.exit(0)
     if a[0] == "collect": collect(a[1])
     elif a[0] == "confirm": confirm(a[1])
     elif a[0] == "detect":
